@@ -7,6 +7,8 @@ What is mirrored (as the code performs it, with fixes/C09-*.patch applied; the
 behaviour of the unpatched code is kept as `…Old`):
 
 * `_netcdf_name` — `netcdfName` (blank → `_` *before* the uniqueness test; old: after);
+  an unnamed dimension coordinate on an axis with a pinned dimension name asks `_netcdf_name` for that
+  name (old: takes it as it is, `oldDimName`);
 * `write_vars['seen']` + `_already_in_file` + `implementation.equal_components`
   — `St.seen`, `findSeen`, `eqComp` (structural equality of what `equals`
   compares: construct type unless `ignore_type`, and a signature = identity of
@@ -105,6 +107,7 @@ structure St where
   dup : Bool := false                               -- a variable was created under a name already in use (netCDF error)
   oldNames : Bool := false                          -- configuration: `_netcdf_name` as the code has it (`netcdfNameOld`)
   oldData : Bool := false                           -- configuration: data variables are registered in `seen` (as the code has it)
+  oldDimName : Bool := false                        -- configuration: an unnamed dimension coordinate takes the pinned dimension name as it is
   unlimDims : List Name := []                       -- g['unlimited_ncdims']
   links : List Link := []                           -- every field's `key_to_ncvar` (ghost state: read by nothing)
   nf : Nat := 0                                     -- number of fields written so far
@@ -311,13 +314,17 @@ def dimCoordName (s : St) (ncdimPinned : Option Name) (c : Cons) : St × Name :=
   match c.ncvar, c.dflt with
   | none, none =>
     match ncdimPinned with
-    | some d => (s, d)      -- the name is *not* passed through _netcdf_name (as coded)
+    | some d =>
+      -- as coded the name is *not* passed through `_netcdf_name` (`ncvar = ncdim`): a variable or dimension of
+      -- that name written for an earlier field makes netCDF refuse it; fixes/C09-dimension-coordinate-name-unique.patch
+      if s.oldDimName then (s, d) else netcdfName s d
     | none => netcdfName s "coordinate"
   | p, d => createName s p d "coordinate"
 
 def createDimCoord (s : St) (size : Nat) (ncdimPinned : Option Name) (c : Cons) : St × Name :=
   let r := dimCoordName s ncdimPinned c
-  let s1 : St := { r.1 with dimSizes := r.1.dimSizes ++ [(r.2, size)] }
+  -- (a dimension of that name already in the dataset makes netCDF refuse the new one: only reachable with `oldDimName`)
+  let s1 : St := { r.1 with dimSizes := r.1.dimSizes ++ [(r.2, size)], dup := r.1.dup || (lookup r.1.dimSizes r.2).isSome }
   let b := writeBounds s1 r.2 [r.2] c.bounds
   (emitVar b.1 { name := r.2, dims := [r.2], val := c.val, bounds := b.2, stdname := c.dflt, str := c.str }, r.2)
 
@@ -386,7 +393,8 @@ def findSpanDim (patched : Bool) (spans : List (Name × Nat × List (CVal × Nat
       decide (e.2.1 = size) && !(patched && used.contains e.1) &&
       mine.any (fun m => e.2.2.any (fun o => decide (m.2 = o.2) && eqComp false m.1 o.1)))).map (·.1)
 
-/-- the by-name reuse of a dimension for an axis that pins a netCDF dimension name -/
+/-- the by-name reuse of a dimension for an axis that pins a netCDF dimension name (the further condition of /repo
+8953e79, "not the sample dimension of a DSG ragged array", is vacuous here: compression variables are outside the model) -/
 def pinnedDimReusable (s : St) (fs : FSt) (ax : AAxis) : Bool :=
   match ax.ncdim with
   | none => false
@@ -576,6 +584,8 @@ def writeAllOldDims (fs : List AField) : St := writeAllFrom false {} fs
 def writeAllOldNames (fs : List AField) : St := writeAllFrom true { oldNames := true } fs
 /-- the same with data variables registered in `seen` as the code has it -/
 def writeAllOldData (fs : List AField) : St := writeAllFrom true { oldData := true } fs
+/-- the same with the name of an unnamed dimension coordinate as the code has it -/
+def writeAllOldDimName (fs : List AField) : St := writeAllFrom true { oldDimName := true } fs
 
 /-! ### reader -/
 
